@@ -201,7 +201,7 @@ class CppGen:
                 self.fmt_ret(t["ok"], "(ok_->get())" if t["ok"]["k"] == "opq" else "(*ok_)", out, False)
             out.append('L(")"); } else { auto er_ = std::move(%s).err(); (void)er_; L("err(");' % e)
             if t["err"]["k"] != "unit":
-                self.fmt(t["err"], "(*er_)", out)
+                self.fmt(t["err"], "(er_->get())" if t["err"]["k"] == "opq" else "(*er_)", out)
             out.append('L(")"); }')
         elif k == "opt" and t["t"]["k"] == "unit":
             out.append('if ((%s).has_value()) { L("some()"); } else { L("none"); }' % e)
